@@ -22,6 +22,11 @@ def checkDecodeP (len : Nat) (cls : String) (allocBytes : Nat) : Bool :=
 def TotalP {α} (len : Nat) (o : Outcome (Ret α)) : Prop :=
   ∃ r, o = .ok r ∧ r.alloc ≤ 4 * len ∧ r.steps ≤ 2 * len
 
+/-- the value a decoder returned (`none`: it returned an error, or did not return normally) -/
+def decoded {α} : Outcome (Ret α) → Option α
+  | .ok r => r.val
+  | _ => none
+
 /-- clause (1): the decoded value, in canonical rendering, is the original (nil and empty collections identified) -/
 def normEmpty (s : String) : String := if s == "nil" then "-" else s
 
